@@ -419,7 +419,7 @@ def compare_find(ctx, c, closure, durations, oracle_ok):
                     [m[0], m[1], m[2], float(m[3])]}
         elif s is not None:
             ic = impl_solution_cost(c, s)
-            if abs(ic - m[4]) > Fr(1, 10 ** 8) * max(abs(m[4]), 1):
+            if abs(ic - m[4]) > Fr(1, 10 ** 9) * max(abs(m[4]), Fr(c['MS'])):
                 diff = {'duration': d, 'impl_cost': float(ic), 'model_cost': float(m[4]), 'impl': list(s),
                         'model': [m[0], m[1], m[2], float(m[3])]}
             elif s[0] + s[1] + s[2] != d or s[0] < 1 or s[2] < 1 or s[1] < 0:
@@ -450,7 +450,7 @@ def compare_run(ctx, c, res, mres, oracle_ok, D):
             ks = [round(Fr(t) / R) for t in tt]
             ru, rd = ks[1] - ks[0], ks[-1] - ks[-2]
             ic = abs(Fr(w[0]) - Fr(w[1])) / (ru * R) + abs(Fr(w[-1]) - Fr(w[-2])) / (rd * R)
-            if abs(ic - mres['cost']) > Fr(1, 10 ** 8) * max(abs(mres['cost']), 1):
+            if abs(ic - mres['cost']) > Fr(1, 10 ** 9) * max(abs(mres['cost']), Fr(c['MS'])):
                 diff = {'impl_cost': float(ic), 'model_cost': float(mres['cost']), 'impl_tt': tt, 'impl_w': w,
                         'model': [mres['up'], mres['flat'], mres['down'], float(mres['amp'])]}
     if diff is None:
